@@ -34,6 +34,7 @@ func runC02(p *load.Program, r *oblig.Report) {
 	c02HeaderReset(p, r)
 	c02PassedBatches(p, r)
 	c02LookupTopic(p, r)
+	c02RunFuncAlways(p, r)
 	shareRules(r, "C02", "C02.R11 the high watermark a Batch is built with is the partition's (C06)", func(sub *oblig.Report) { c06FetchWatermark(p, sub) })
 	varintAcrossRefills(p, r, "C02.R6 message set accounting and skipping")
 }
